@@ -206,3 +206,21 @@ def run(ctx: Ctx):
         rule_emit_total(ctx),
     ]
     return out
+
+
+from ..mutants import Mut  # noqa: E402
+
+_F = "urwid/signals.py"
+MUTANTS = [
+    Mut("emit-live-list", _F, "Signals.emit", "in list(handlers):", "in handlers:", "SNAP|signals.Signals.emit"),
+    Mut("callback-captures-sender", _F, "Signals.connect", "o = obj_weak()", "o = obj", "CLOS|"),
+    Mut("weak-args-stored-strongly", _F, "Signals._prepare_user_args", "tuple(weakref.ref(w_arg, callback) for w_arg in weak_args)", "tuple(weak_args)", "CLOS|"),
+    Mut("liveness-by-truthiness", _F, "Signals._call_callback", "if real_arg is not None:", "if real_arg:", "PASS|"),
+    Mut("emit-short-circuit", _F, "Signals.emit", "result |= self._call_callback(", "result = result or self._call_callback(", "ORDER|"),
+    Mut("emit-early-return", _F, "Signals.emit", "result |= self._call_callback(callback, user_arg, weak_args, user_args, args)", "if self._call_callback(callback, user_arg, weak_args, user_args, args):\n                return True", "ORDER|"),
+    Mut("disconnect-by-key-raises", _F, "Signals.disconnect_by_key", "handlers[:] = [h for h in handlers if h[0] is not key]", "handlers.remove(next(h for h in handlers if h[0] is key))", "EXC|"),
+    Mut("connect-append-before-check", _F, "Signals.connect", "raise NameError(f\"No such signal {name!r} for object {obj!r}\")", "pass", ("EXC|", "ORDER|")),
+    Mut("twin-tuple-snapshot", _F, "Signals.emit", "in list(handlers):", "in tuple(handlers):", twin=True),
+    Mut("twin-rename-accumulator", _F, "Signals.emit", "result = False", "result = False  # accumulator", twin=True),
+    Mut("twin-slice-snapshot", _F, "Signals.emit", "in list(handlers):", "in handlers[:]:", twin=True),
+]
